@@ -40,10 +40,12 @@ type script struct {
 
 type server struct {
 	tikvpb.TikvServer
-	sc       script
-	streams  atomic.Int64
-	messages atomic.Int64
-	breaks   atomic.Int64
+	resolveMu sync.Mutex
+	resolved  map[uint64]bool // start versions of the ResolveLock requests that reached the server
+	sc        script
+	streams   atomic.Int64
+	messages  atomic.Int64
+	breaks    atomic.Int64
 }
 
 func echo(id uint64, r *tikvpb.BatchCommandsRequest_Request) *tikvpb.BatchCommandsResponse_Response {
@@ -51,9 +53,21 @@ func echo(id uint64, r *tikvpb.BatchCommandsRequest_Request) *tikvpb.BatchComman
 	case *tikvpb.BatchCommandsRequest_Request_Get:
 		return &tikvpb.BatchCommandsResponse_Response{Cmd: &tikvpb.BatchCommandsResponse_Response_Get{Get: &kvrpcpb.GetResponse{Value: c.Get.Key}}}
 	case *tikvpb.BatchCommandsRequest_Request_ResolveLock:
+		noteResolve(c.ResolveLock.StartVersion)
 		return &tikvpb.BatchCommandsResponse_Response{Cmd: &tikvpb.BatchCommandsResponse_Response_ResolveLock{ResolveLock: &kvrpcpb.ResolveLockResponse{}}}
 	}
 	return &tikvpb.BatchCommandsResponse_Response{Cmd: &tikvpb.BatchCommandsResponse_Response_Empty{Empty: &tikvpb.BatchCommandsEmptyResponse{}}}
+}
+
+// the running case's server (one case at a time)
+var current atomic.Pointer[server]
+
+func noteResolve(start uint64) {
+	if s := current.Load(); s != nil {
+		s.resolveMu.Lock()
+		s.resolved[start] = true
+		s.resolveMu.Unlock()
+	}
 }
 
 func (s *server) BatchCommands(ss tikvpb.Tikv_BatchCommandsServer) error {
@@ -131,6 +145,7 @@ func (s *server) KvGet(ctx context.Context, req *kvrpcpb.GetRequest) (*kvrpcpb.G
 	return &kvrpcpb.GetResponse{Value: req.Key}, nil
 }
 func (s *server) KvResolveLock(ctx context.Context, req *kvrpcpb.ResolveLockRequest) (*kvrpcpb.ResolveLockResponse, error) {
+	noteResolve(req.StartVersion)
 	return &kvrpcpb.ResolveLockResponse{}, nil
 }
 
@@ -163,16 +178,17 @@ type callSpec struct {
 }
 
 type callResult struct {
-	payload string
-	spec    callSpec
-	err     error
-	value   string
-	kind    string
-	elapsed time.Duration
-	returns int32
+	payload      string
+	spec         callSpec
+	err          error
+	value        string
+	kind         string
+	resolveStart uint64
+	elapsed      time.Duration
+	returns      int32
 }
 
-const rule = "a loopback gRPC TiKV server whose BatchCommands stream follows a generated script (per-message delays 0-40 ms, answers reversed and split into one message per id, stream broken after k messages once or on every stream, answers for never-sent ids and repeated answers for an already answered id, every n-th request id never answered) serves 1-48 caller goroutines issuing 1-6 calls each through RPCClient.SendRequest: Get requests with a unique payload (the server echoes it), time-outs 60-400 ms, optional cancellation after 1-80 ms, normal / high / low priority, optional forwarded host, and region-wide ResolveLock requests through the collapsing wrapper; concurrently the connection to the store may be closed (CloseAddr) and finally the client is closed; oracle: every call returns exactly once; a successful Get carries exactly its own payload, a successful ResolveLock a ResolveLock response; every failure is an error value; no call returns later than its time-out plus 3 s; all callers have returned 20 s after the last one started; non-trivial = a stream break, cancellation or unanswered id happened while at least 2 calls were in flight; distinct = script + call specs"
+const rule = "a loopback gRPC TiKV server whose BatchCommands stream follows a generated script (per-message delays 0-40 ms, answers reversed and split into one message per id, stream broken after k messages once or on every stream, answers for never-sent ids and repeated answers for an already answered id, every n-th request id never answered) serves 1-48 caller goroutines issuing 1-6 calls each through RPCClient.SendRequest: Get requests with a unique payload (the server echoes it), time-outs 60-400 ms, optional cancellation after 1-80 ms, normal / high / low priority, optional forwarded host, and region-wide ResolveLock requests (1 in 5 calls) through the collapsing wrapper; concurrently the connection to the store may be closed (CloseAddr) and finally the client is closed; oracle: every call returns exactly once; a successful Get carries exactly its own payload, a successful ResolveLock a ResolveLock response and a ResolveLock for its own transaction has reached the server (calls use distinct transactions, rollbacks and commits, a few share one); every failure is an error value; no call returns later than its time-out plus 3 s; all callers have returned 20 s after the last one started; non-trivial = a stream break, cancellation or unanswered id happened while at least 2 calls were in flight; distinct = script + call specs"
 
 func TestBatchMultiplexing(t *testing.T) {
 	rec := ev.For(t, "C18", rule)
@@ -215,7 +231,7 @@ func TestBatchMultiplexing(t *testing.T) {
 					s.CancelMs = rapid.IntRange(1, 80).Draw(t, "cancelat")
 				}
 				s.Forward = rapid.IntRange(0, 7).Draw(t, "forward") == 0
-				s.Resolve = rapid.IntRange(0, 9).Draw(t, "resolve") == 0
+				s.Resolve = rapid.IntRange(0, 4).Draw(t, "resolve") == 0
 				specs[i] = append(specs[i], s)
 			}
 		}
@@ -228,7 +244,8 @@ func TestBatchMultiplexing(t *testing.T) {
 		config.StoreGlobalConfig(&cfg)
 		defer config.StoreGlobalConfig(&orig)
 
-		srv := &server{sc: sc}
+		srv := &server{sc: sc, resolved: map[uint64]bool{}}
+		current.Store(srv)
 		run, err := start(srv, "")
 		if err != nil {
 			t.Fatalf("VERIF-INFRA: %v", err)
@@ -292,7 +309,18 @@ func TestBatchMultiplexing(t *testing.T) {
 					}
 					var req *tikvrpc.Request
 					if sp.Resolve {
-						req = tikvrpc.NewRequest(tikvrpc.CmdResolveLock, &kvrpcpb.ResolveLockRequest{StartVersion: 7, CommitVersion: 9})
+						// region-wide resolve of "transaction" (1000 + caller*10 + call): a rollback (commit version 0) or a
+						// commit; a few callers share one transaction on purpose (legitimately collapsible)
+						start := uint64(1000 + i*10 + j)
+						if i%5 == 4 {
+							start = 999
+						}
+						var commit uint64
+						if (i+j)%3 == 0 {
+							commit = start + 5
+						}
+						res.resolveStart = start
+						req = tikvrpc.NewRequest(tikvrpc.CmdResolveLock, &kvrpcpb.ResolveLockRequest{StartVersion: start, CommitVersion: commit})
 					} else {
 						req = tikvrpc.NewRequest(tikvrpc.CmdGet, &kvrpcpb.GetRequest{Key: []byte(res.payload), Version: 1})
 					}
@@ -369,6 +397,12 @@ func TestBatchMultiplexing(t *testing.T) {
 				case r.spec.Resolve:
 					if r.kind != "resolve" {
 						t.Fatalf("%s (ResolveLock) got a %s response\n  case: %s", who, r.kind, desc)
+					}
+					srv.resolveMu.Lock()
+					reached := srv.resolved[r.resolveStart]
+					srv.resolveMu.Unlock()
+					if !reached {
+						t.Fatalf("%s: ResolveLock for transaction %d returned success, but no ResolveLock for that transaction ever reached the store - the caller was handed another call's response\n  case: %s", who, r.resolveStart, desc)
 					}
 					okResolve++
 				default:
